@@ -3,7 +3,8 @@
 # claimed check from the scratch copy /tmp/vm of /verif against it (VERIF_REPO). /repo is not touched.
 # Writes /tmp/mut/out/<id>/<v>/matrix_<tier>.txt (one line per property).
 id=$1; v=$2; tier=${3:-quick}
-wt=/tmp/mut/$id; out=/tmp/mut/out/$id/$v
+MUT=${MUT:-/tmp/mut}
+wt=$MUT/$id; out=$MUT/out/$id/$v
 VM=${VM:-/tmp/vm}
 exec 9>$VM.lock; flock 9
 rm -rf ${VM}_src && mkdir -p ${VM}_src $VM && git -C /verif archive HEAD | tar -x -C ${VM}_src
